@@ -187,6 +187,12 @@ nsync_note nsync_note_new (nsync_note parent,
 					&n->parent_child_link);
 			}
 			nsync_mu_unlock (&parent->note_mu);
+		} else if (parent != NULL && parent->expiry_time_valid &&
+			   nsync_time_cmp (parent->expiry_time, n->expiry_time) < 0) {
+			/* Already expired, so not linked to the parent, but the
+			   expiry time is still the minimum over the ancestors
+			   (expiry_time is read-only after initialization).  */
+			set_expiry_time (n, parent->expiry_time);
 		}
 	}
 	return (n);
